@@ -294,6 +294,9 @@ func execute(s *engine.Script, o *engine.Outcome) {
 			}
 			scribbleBytes(pool[b][a:e], mode, uint64(op.N[3]))
 			o.Fault("scribble:" + class)
+			if lf != nil {
+				o.Tag("(entry point, field class overwritten)", lf.ad.Name+"/"+class)
+			}
 			check(fmt.Sprintf("op %d: bytes [%d,%d) (%s) of buffer %d were overwritten (%s)", i, a, e, class, b, modeName[mode]), "aliases-input/"+class)
 			o.FP.Step("scribble", i, b, a, e, mode)
 		case "scribble_returned":
